@@ -10,6 +10,12 @@ DRIVER = "Driver/C14.lean"
 THEOREMS = [
     "C14_replace_atomic",
     "C14_wf_replace_atomic",
+    "C14_wf_io_survives",
+    "C14_head_replace_atomic",
+    "C14_head_inherits",
+    "C14_preserves_C12_C13",
+    "C14_replace_by_label_atomic",
+    "C14_caches_dropped",
     "C14_copy_io_atomic",
     "C14_copy_io_hard_structure",
     "C14_copy_io_hard_atomic",
@@ -194,6 +200,7 @@ def _build(case):
         order.append(name)
     # class-as-replacement: a template instance stands for the node the library will make itself
     w.class_cands = {}
+    w.used_classes = set()
     for name, cls in case.get("class_cands", []):
         if name in names:
             continue
@@ -452,6 +459,8 @@ def run_impl(case):
                         (op[2] not in w.names or op[3] not in w.class_cands)):
                     continue
                 comp, new = w.names[op[1]], w.names[op[3]]
+                if kind == "replacecls" and (new.parent is not None or op[3] in w.used_classes):
+                    continue  # the template stands for one instantiation only
                 old = w.names[op[2]] if kind == "replacecls" else (comp.children.get(op[2]) if _is_comp(comp) else None)
                 if kind == "replacecls":
                     new.label = old.label  # what `replacement(label=owned_node_instance.label)` will carry
@@ -463,6 +472,7 @@ def run_impl(case):
                     if kind == "replacelabel":
                         comp.replace_child(op[2], new)
                     else:
+                        w.used_classes.add(op[3])
                         _old, real = comp.replace_child(old, w.class_cands[op[3]])
                         _rebind(w, w.nid[id(new)], real, op[3])
                         new = real
@@ -623,9 +633,15 @@ def _rebind(w, idx, real, name):
             w.cid.pop(id(ch), None)
             w.cid[id(new_ch)] = c
             w.chans[k] = (c, n, pname, lab, new_ch)
+    w.garbage = getattr(w, "garbage", []) + [tmpl]
+    # the nodes below a macro template are the ones below the real macro
+    if _is_comp(real):
+        for sub in [k for k in w.order if k.startswith(name + "/")]:
+            lab = sub[len(name) + 1:]
+            if "/" not in lab and lab in real.children:
+                _rebind(w, w.nid[id(w.names[sub])], real.children[lab], sub)
     w.admit_rows = [(c, ch) for c, _n, p, _l, ch in w.chans
                     if p in ("inputs", "outputs") and _hint(ch) is not None and ch.strict_hints]
-    w.garbage = getattr(w, "garbage", []) + [tmpl]
 
 
 def _comp_kind(n):
@@ -852,6 +868,8 @@ def _wf_case(rng, tier):
     case["class_cands"] = [[f"k{i}", c] for i, c in enumerate(rng.sample([c for c in CAND_CLASSES if c != "Workflow"], 2))]
     if rng.random() < 0.15:
         ops.append(["run", "@wf"])  # fills the caches (and re-wires the signals)
+    if rng.random() < 0.15:
+        ops.append(["run", rng.choice(case["cands"])[0]])  # a candidate that has run before carries a cache
     for _ in range(rng.randint(0, 2) if rng.random() < 0.2 else 0):
         ops.append(["lock", rng.choice(labs + [c[0] for c in case["cands"]])])  # a running node: inputs locked
     for _ in range(rng.randint(1, 3)):
@@ -912,6 +930,8 @@ def _nested_case(rng, tier):
     ops = case["ops"]
     if rng.random() < 0.2:
         ops.append(["run", "@wf"])
+    if rng.random() < 0.2:
+        ops.append(["run", rng.choice(["r0", "r1", "r3"])])
     if rng.random() < 0.15:
         ops.append(["lock", rng.choice(["m", "r0", "r1", "d"])])
     for _ in range(rng.randint(1, 3)):
@@ -1028,19 +1048,19 @@ def _maps_case(rng, tier):
 
 def gen_cases(rng, tier):
     quick = tier == "quick"
-    for _ in range(110 if quick else 2500):
+    for _ in range(85 if quick else 2500):
         yield _wf_case(rng, tier)
-    for _ in range(110 if quick else 2500):
+    for _ in range(85 if quick else 2500):
         yield _macro_case(rng, tier)
-    for _ in range(50 if quick else 1200):
+    for _ in range(40 if quick else 1200):
         yield _copyio_case(rng, tier)
-    for _ in range(60 if quick else 1500):
+    for _ in range(50 if quick else 1500):
         yield _dag_case(rng, tier)
-    for _ in range(20 if quick else 400):
+    for _ in range(16 if quick else 400):
         yield _maps_case(rng, tier)
-    for _ in range(40 if quick else 800):
+    for _ in range(30 if quick else 800):
         yield _run_case(rng, tier)
-    for _ in range(60 if quick else 1200):
+    for _ in range(45 if quick else 1200):
         yield _nested_case(rng, tier)
     if not quick:
         yield from _exhaustive()
